@@ -33,6 +33,7 @@ CONSTANTS NU,        \* use the first NU units of UnitList
                      \* "indexes": from the position in list(array.indexes)                  [history: seeded defect sb2]
           Memo,      \* FALSE: every constructor call builds its coordinates afresh [the code]
                      \* TRUE: the coordinate array is memoised on (start, stop, step) and shared [history: seeded defect C16-r4sb1]
+          WriteVia,  \* set_value_at_pos writes into "data" itself [the code] / a "promoted" view-or-copy [history: seeded defect C16-r8sb2]
           ClampBy,   \* high clamp of get_coord_index: "dim" = sizes[dim] [the code] / "total" = arr.size [history: seeded defect C16-r6sb1]
           RangeBy,   \* "coords": get_dim_range = min / max of the coordinates [the code]
                      \* "attrs": the start / stop attributes of the coordinate when present [history: seeded defect C16-r4sb2]
@@ -150,16 +151,24 @@ SetCaseOK(x) == /\ (~IsNone(x.nc) => IsNone(x.q[Some(x.nc)]))                 \*
                 /\ (~(x.sa = Matching /\ x.ir = 0) => /\ Plain(<<x.reg, x.tr>>, Len(x.sh)) /\ x.s = UnitList[1] /\ x.dt = "f8"
                                                       /\ IsNone(x.nc) /\ Len(x.sh) <= 2)
 \* (a filtered set, not a conjunct of Init: TLC would enumerate the disjunctions of the filter as branches)
+ScalarTypes == {"py_int", "py_float", "py_bool", "np_f4", "np_i8", "np_u1"}
+ArrayTypes  == {"arr_f8", "arr_f4", "arr_i4", "arr_b1"}
 SetCasesFor(s, sh, dt) ==
     LET d    == Len(sh)
         sub  == s = UnitList[1] /\ dt = "f8"                          \* the sub-universe that carries the new dimensions
-        Rec(q, vm, lay, nc, v) == [kind |-> "set", s |-> s, dt |-> dt, sh |-> sh, q |-> q, vm |-> vm, reg |-> lay[1], tr |-> lay[2],
-                                   nc |-> nc, sa |-> v[1], ir |-> v[2], ra |-> v[3]]
+        RecT(q, vm, lay, nc, v, t) == [kind |-> "set", s |-> s, dt |-> dt, sh |-> sh, q |-> q, vm |-> vm, reg |-> lay[1], tr |-> lay[2],
+                                       nc |-> nc, sa |-> v[1], ir |-> v[2], ra |-> v[3], adt |-> t[1], vt |-> t[2]]
+        Rec(q, vm, lay, nc, v) == RecT(q, vm, lay, nc, v, <<"f8", IF vm = "scalar" THEN "py_float" ELSE "arr_f8">>)
+        \* dtype of the array x type of the value (scalar types with a scalar value, array types with a row / column)
+        tvs(vm) == IF sub /\ d <= 2 THEN {<<a, v>> : a \in {"b1", "u1", "i2", "i4", "f4", "f8"},
+                                                    v \in IF vm = "scalar" THEN ScalarTypes ELSE ArrayTypes} ELSE {}
         lays == IF sub THEN Layouts(d) ELSE {<<IdP(d), IdP(d)>>}
         ncs  == IF sub THEN NoCoord(sh) ELSE {<<>>}
         avs  == IF sub /\ d <= 2 THEN {<<<<>>, 0, <<>>>>, <<<<<<1, 2>>>>, 0, <<>>>>, <<Matching, 1, <<>>>>, <<Matching, 0, <<<<"attrs", 4, 4>>>>>>} ELSE {}
     IN  {x \in {Rec(q, vm, lay, nc, <<Matching, 0, <<>>>>) : q \in Queries(sh), vm \in {"scalar", "array"}, lay \in lays, nc \in ncs} : SetCaseOK(x)}
         \cup {x \in {Rec(q, vm, <<IdP(d), IdP(d)>>, <<>>, v) : q \in Queries(sh), vm \in {"scalar", "array"}, v \in avs} : SetCaseOK(x)}
+        \cup UNION {{x \in {RecT(q, vm, <<IdP(d), IdP(d)>>, <<>>, <<Matching, 0, <<>>>>, t) : q \in {y \in Queries(sh) : OnCoords(sh, y)}, t \in tvs(vm)} :
+                        SetCaseOK(x)} : vm \in {"scalar", "array"}}
 R0 == [call |-> 1, memo |-> FALSE, dirty |-> FALSE, es |-> <<0, 1>>, len |-> 0, k |-> "none", v |-> -1, ix |-> <<>>, hit |-> TRUE, after |-> <<>>]
 Init == /\ pc = "start" /\ i = 0
         /\ \/ InitRange
@@ -239,8 +248,16 @@ Found == /\ c.kind = "index" /\ pc = "scan" /\ (i = c.n \/ Tk * i * KK(c) > QRel
 (* -------------------------------------------------------------- set: Impl *)
 ImplIndex(n, p) == Cardinality({j \in 0..(n - 1) : Tk * j <= p}) - 1          \* searchsorted right, minus one
 Before(sh) == [f \in 1..Prod(sh, 1) |-> f]
-ValueOf(x) == IF x.vm = "scalar" THEN <<100>>
-              ELSE [f \in 1..Prod([d \in 1..Len(x.sh) |-> IF IsNone(x.q[d]) THEN x.sh[d] ELSE 1], 1) |-> 100 + f]
+\* the value as given (True = 1; a boolean row alternates), then as the array's dtype represents it
+RawValueOf(x) == IF x.vm = "scalar" THEN (IF x.vt = "py_bool" THEN <<1>> ELSE <<100>>)
+                 ELSE [f \in 1..Prod([d \in 1..Len(x.sh) |-> IF IsNone(x.q[d]) THEN x.sh[d] ELSE 1], 1) |-> IF x.vt = "arr_b1" THEN f % 2 ELSE 100 + f]
+ValueOf(x) == CastSeq(x.adt, RawValueOf(x))
+\* seeded (C16-r8sb2): the write goes through data.astype(result_type(array, value), copy=False) -- a COPY whenever the value's type is
+\* wider than the array's, and the write is lost.  (Rank approximates numpy's promotion: bool < unsigned < signed < float.)
+Rank(t) == CASE t \in {"b1", "py_bool", "arr_b1"} -> 0 [] t \in {"u1", "np_u1"} -> 1 [] t = "i2" -> 2 [] t \in {"i4", "arr_i4"} -> 3
+             [] t = "np_i8" -> 4 [] t \in {"f4", "np_f4", "arr_f4"} -> 5 [] t \in {"f8", "arr_f8"} -> 6
+             [] t = "py_int" -> 1 [] t = "py_float" -> 5
+WriteLost(x) == WriteVia = "promoted" /\ Rank(x.vt) > Rank(x.adt) /\ ~(x.vt = "py_float" /\ x.adt \in {"f4", "f8"}) /\ ~(x.vt = "py_int" /\ x.adt # "b1")
 \* which axis of the data the index found for dimension d is applied to
 IndexOrder(x) == SelectSeq(x.reg, LAMBDA d : IsNone(x.nc) \/ d # Some(x.nc))          \* list(array.indexes)
 PosIn(sq, d)  == CHOOSE k \in 1..Len(sq) : sq[k] = d
@@ -258,7 +275,7 @@ Lookup == /\ c.kind = "set" /\ pc = "start" /\ i < Len(c.sh)
 Write == /\ c.kind = "set" /\ pc = "start" /\ i = Len(c.sh)
          /\ r' = [r EXCEPT !.after = [f \in 1..Prod(c.sh, 1) |->
                      LET idx == CHOOSE x \in Cells(c.sh) : Flat(c.sh, x) = f
-                     IN  IF Addressed(r.ix, idx) THEN VAt(c.sh, r.ix, idx, ValueOf(c)) ELSE f]]
+                     IN  IF Addressed(r.ix, idx) /\ ~WriteLost(c) THEN VAt(c.sh, r.ix, idx, ValueOf(c)) ELSE f]]
          /\ pc' = "done" /\ UNCHANGED <<c, i>>
 
 Next == Fast \/ Resolve \/ Arange \/ TrimDrop \/ TrimKeep \/ Mutate \/ Again \/ Check \/ Scan \/ Found \/ Lookup \/ Write
